@@ -83,6 +83,7 @@ static struct tcb* seq(unsigned i) { return i == own ? &own_cb : &oth[i < own ? 
 #define XV_INIT_guard_ptr(self, v) g_ctor((self), (v))     /* delegating constructor */
 static void g_ctor(struct guard* self, mptr p);
 static void g_reset(struct guard* self);
+static void g_dtor(struct guard* self);
 unsigned nest;                                             /* model of nested_critical_entries for the guard level */
 unsigned gs_enter, gs_leave, gs_add, gs_setdel, gs_enter_region, gs_leave_region; _Bool gs_underflow;
 uint64_t gs_enter_clk, gs_leave_clk, gs_add_clk, gs_setdel_clk; unsigned gs_add_nest;
